@@ -7,4 +7,4 @@ def run(ctx):
     def extra(ctx):
         rnd = random.Random(ctx.seed + 77)
         return [ec.motif_deps_swap(rnd, 'C01_swap_%d' % i) for i in range(60)]
-    engcommon.run_engine_property(ctx, 'C01', [('c01', None)], faults=0.3, extra_hists=extra, feat=dict(dyndep=0.25))
+    engcommon.run_engine_property(ctx, 'C01', scan_accept=700, oracles=[('c01', None)], faults=0.3, extra_hists=extra, feat=dict(dyndep=0.25))
